@@ -217,6 +217,41 @@ fn keep_double_minus_apart(unop: &UnOp, expression: Expression) -> Expression {
     expression
 }
 
+/// Collects the comments bound to a pair of parentheses which is being removed, so that they can be appended onto
+/// the expression inside: the ones around the opening parenthesis go in front of it, the ones around the closing
+/// parenthesis go behind it.
+fn removed_parentheses_comments(
+    ctx: &Context,
+    contained: &ContainedSpan,
+    shape: Shape,
+) -> (Vec<Token>, Vec<Token>) {
+    let (start_parens, end_parens) = contained.tokens();
+    let leading_comments = start_parens
+        .leading_trivia()
+        .chain(start_parens.trailing_trivia())
+        .filter(|token| trivia_util::trivia_is_comment(token))
+        .flat_map(|x| {
+            vec![
+                create_indent_trivia(ctx, shape),
+                x.to_owned(),
+                create_newline_trivia(ctx),
+            ]
+        })
+        .collect();
+
+    let trailing_comments = end_parens
+        .leading_trivia()
+        .chain(end_parens.trailing_trivia())
+        .filter(|token| trivia_util::trivia_is_comment(token))
+        .flat_map(|x| {
+            // Prepend a single space beforehand
+            vec![Token::new(TokenType::spaces(1)), x.to_owned()]
+        })
+        .collect();
+
+    (leading_comments, trailing_comments)
+}
+
 /// Formats an Expression node
 pub fn format_expression(ctx: &Context, expression: &Expression, shape: Shape) -> Expression {
     format_expression_internal(ctx, expression, ExpressionContext::Standard, shape)
@@ -290,28 +325,8 @@ fn format_expression_internal(
             // If the context is for a prefix, we should always keep the parentheses, as they are always required
             if use_internal_expression && !keep_parentheses {
                 // Get the leading and trailing comments from contained span and append them onto the expression
-                let (start_parens, end_parens) = contained.tokens();
-                let leading_comments = start_parens
-                    .leading_trivia()
-                    .filter(|token| trivia_util::trivia_is_comment(token))
-                    .flat_map(|x| {
-                        vec![
-                            create_indent_trivia(ctx, shape),
-                            x.to_owned(),
-                            create_newline_trivia(ctx),
-                        ]
-                    })
-                    // .chain(std::iter::once(create_indent_trivia(ctx, shape)))
-                    .collect();
-
-                let trailing_comments = end_parens
-                    .trailing_trivia()
-                    .filter(|token| trivia_util::trivia_is_comment(token))
-                    .flat_map(|x| {
-                        // Prepend a single space beforehand
-                        vec![Token::new(TokenType::spaces(1)), x.to_owned()]
-                    })
-                    .collect();
+                let (leading_comments, trailing_comments) =
+                    removed_parentheses_comments(ctx, contained, shape);
 
                 format_expression_internal(ctx, expression, context, shape)
                     .update_leading_trivia(FormatTriviaType::Append(leading_comments))
@@ -1370,6 +1385,10 @@ fn format_hanging_expression_(
 
             // If the context is for a prefix, we should always keep the parentheses, as they are always required
             if use_internal_expression && !keep_parentheses {
+                // Keep the comments bound to the parentheses which are removed
+                let (leading_comments, trailing_comments) =
+                    removed_parentheses_comments(ctx, contained, lhs_shape);
+
                 format_hanging_expression_(
                     ctx,
                     expression,
@@ -1377,6 +1396,8 @@ fn format_hanging_expression_(
                     expression_context,
                     lhs_range,
                 )
+                .update_leading_trivia(FormatTriviaType::Append(leading_comments))
+                .update_trailing_trivia(FormatTriviaType::Append(trailing_comments))
             } else {
                 let contained = format_contained_span(ctx, contained, lhs_shape);
 
